@@ -85,6 +85,11 @@ CLAIMED = {
   ref="DESIGN.md §6 C15",
   note="Partial: the theorems cover the conversion primitives and the size-refusal protocol; the absence of panics and hangs inside the BC encoders' float code is established by the oracle only (bounded loops are not modelled).",
   tech="Coq proof (case analysis over the float representation, Z arithmetic) + implementation-only totality oracle (catch_unwind, watchdog, debug+release)"),
+ "C13": dict(
+  text="Coq theorems over the decoder model of C03 explaining why the emitted-block conditions make blocks portable: a colour block with colour0 > colour1 decodes identically under a mode-selecting (BC1-rule) and an always-four-colour decoder; in the three-colour mode decoders that differ in the meaning of index 3 agree on every block that does not use it; and the cause of finding F13 (the covariance of a two-colour block with equal channel sums annihilates the power-iteration start vector). The encoders' outputs are checked by an oracle over the 12 BC encode formats x 4 qualities x 2 metrics x 4 dithering modes on single colours, two representable colours, ramps, alpha patterns, noise and partial blocks: quantisation bounds, opacity, BC1 transparency threshold, colour0 > colour1, index-3 usage.",
+  ref="DESIGN.md §6 C13",
+  note="Partial: the BC encoders (line fits, refinement, float code) are not modelled - the bounds are established on generated inputs by the oracle. Known findings: F13 (two colours with equal channel sums collapse to one colour under the Uniform metric at every quality) and F14 (Fast quality exceeds the quantisation step on two-colour blocks).",
+  tech="Coq proof (decoder-model lemmas, ring arithmetic) + implementation-only encode/decode oracle"),
  "C19": dict(
   text="Coq theorems over the implementation's regenerated tables: for every header from which a format is detected (all valid DXGI codes x alpha modes incl. the premultiplied special cases, every FourCC, every mask pixel format; all other fields symbolic) the pixel layout derived from the header equals the pixel layout of the detected format, so layouts computed with or without a decoder coincide; every implemented format's pixel layout is within the bounds the layout/script theorems assume; size multiples are advertised exactly for the bi-planar formats and equal their sub-sampling; advertised bits per pixel are exact for fixed-size pixels and an upper bound per whole block otherwise. Observed behaviour is tied to the tables by differential execution: header detection sweep here, bytes consumed by decoding in C06, sizes accepted by encoding in C10. The dithering clauses are checked by an implementation-only oracle over all encodable formats.",
   ref="DESIGN.md §6 C19",
